@@ -7,7 +7,7 @@ import time
 
 from . import core, bfg
 
-STUB_EXTRA = ['rec', 'drv', 'gen', 'cpstub', 'doppel', 'patchelf']
+STUB_EXTRA = ['rec', 'drv', 'gen', 'cpstub', 'lnstub', 'doppel', 'patchelf']
 
 
 class Proj:
@@ -21,7 +21,7 @@ class Proj:
         tree['build.bfg'] = script
         bfg.write_tree(self.src, tree)
         self.bin = bfg.make_stubbin(os.path.join(root, 'bin'), extra=STUB_EXTRA)
-        env = {'CP': 'cpstub -f', 'VERIF_STRICT': '1'}
+        env = {'CP': 'cpstub -f', 'SYMLINK': 'lnstub -sf', 'HARDLINK': 'lnstub -f', 'VERIF_STRICT': '1'}
         env.update(extra_env or {})
         self.env = bfg.base_env(self.bin, extra=env)
         self.args = list(args)
